@@ -35,6 +35,8 @@ pub enum Kind {
     /// MultiProgress only: two bars are inserted at the top and dropped again, lower one first (the
     /// draws this forces are not ordinary requests and are not counted), then an ordinary tick of bar a
     ChurnTick,
+    /// five println calls (forced draws, outside the law) followed by an ordinary tick
+    PrintlnBurstTick,
 }
 
 #[derive(Clone, Copy, Debug, PartialEq)]
@@ -171,6 +173,7 @@ impl C05 {
         let mut drawn_b = false;
         let mut drawn_a = false;
         let mut forced: Vec<(usize, usize)> = Vec::new();
+        let mut logs = 0usize;
         if let Some(new_target) = later {
             let r = catch(|| {
                 for _ in 0..25 {
@@ -205,7 +208,8 @@ impl C05 {
                 pa = 0;
                 drawn_a = true;
                 let m = if msg == 0 { String::new() } else { format!("m{msg}") };
-                let mut rows = vec![format!("a{} {}", pa, m).trim_end().to_string()];
+                let mut rows: Vec<String> = vec!["x".to_string(); logs];
+                rows.push(format!("a{} {}", pa, m).trim_end().to_string());
                 if self.target == Target::Multi && drawn_b {
                     rows.push(format!("b{}", pb_));
                 }
@@ -227,6 +231,19 @@ impl C05 {
                 pa = 0;
                 drawn_a = true;
             }
+            if ev.kind == Kind::PrintlnBurstTick {
+                let f0 = nframes(&spy);
+                if let Err(p) = catch(|| {
+                    for _ in 0..5 {
+                        a.println("x");
+                    }
+                }) {
+                    return Err(p);
+                }
+                forced.push((f0, nframes(&spy)));
+                logs += 5;
+                drawn_a = true;
+            }
             for _ in 0..reps {
                 if ev.kind == Kind::ChurnTick {
                     let f0 = nframes(&spy);
@@ -246,7 +263,7 @@ impl C05 {
                 let t = clock::now_ns();
                 let reach0 = reach.times.lock().unwrap().len();
                 let r = catch(|| match ev.kind {
-                    Kind::Tick | Kind::Burst | Kind::ChurnTick | Kind::ResizeTick => a.tick(),
+                    Kind::Tick | Kind::Burst | Kind::ChurnTick | Kind::ResizeTick | Kind::PrintlnBurstTick => a.tick(),
                     Kind::FinishReset => a.reset(),
                     Kind::Inc | Kind::IncBurst | Kind::ResetIncBurst => a.inc(1),
                     Kind::Dec | Kind::DecBurst => a.dec(1),
@@ -278,7 +295,7 @@ impl C05 {
                     _ => drawn_a = true,
                 }
                 let m = if msg == 0 { String::new() } else { format!("m{msg}") };
-                let mut rows = Vec::new();
+                let mut rows: Vec<String> = vec!["x".to_string(); logs];
                 if drawn_a {
                     rows.push(format!("a{} {}", pa, m).trim_end().to_string());
                 }
@@ -454,6 +471,10 @@ fn configs(tier: Tier) -> Vec<(C05, usize)> {
                 v.push((C05 { r, target: Target::Multi, kinds: vec![Kind::Tick, Kind::Burst, Kind::TickB, Kind::IncB, Kind::ChurnTick, Kind::ResizeTick, Kind::FinishReset], gaps: vec![0, 1, interval_ns(r) - 1, interval_ns(r), 20 * interval_ns(r), 21 * interval_ns(r) + 1], name: "multi", from_r: None }, 3));
                 v.push((C05 { r, target: Target::Single, kinds: vec![Kind::Tick, Kind::Inc, Kind::Burst, Kind::Msg, Kind::SetPos, Kind::SetPosSame, Kind::ResizeTick, Kind::FinishReset], gaps: vec![0, 1_000_000, interval_ns(r) - 1, interval_ns(r) + 1_000_000, 21 * interval_ns(r) + 1], name: "mixed", from_r: None }, 3));
             }
+            // forced draws (println) between ordinary requests neither use up nor refill the budget of the latter
+            for (r, target) in [(2u8, Target::Single), (20, Target::Multi)] {
+                v.push((C05 { r, target, kinds: vec![Kind::Tick, Kind::Burst, Kind::PrintlnBurstTick], gaps: vec![0, 2 * interval_ns(r), 5 * interval_ns(r) + 1, 21 * interval_ns(r) + 1], name: "forced", from_r: None }, 3));
+            }
             // the MultiProgress was moved to the observed terminal from one with another refresh rate
             for (f, r) in [(100u8, 2u8), (2, 100)] {
                 v.push((C05 { r, target: Target::Multi, kinds: vec![Kind::Tick, Kind::Burst, Kind::TickB, Kind::IncB], gaps: vec![0, 1, interval_ns(r) - 1, interval_ns(r), 20 * interval_ns(r), 21 * interval_ns(r) + 1], name: "multi", from_r: Some(f) }, 3));
@@ -468,6 +489,9 @@ fn configs(tier: Tier) -> Vec<(C05, usize)> {
                 v.push((C05 { r, target: Target::Single, kinds: vec![Kind::Inc, Kind::IncBurst, Kind::Dec, Kind::DecBurst, Kind::ResetIncBurst], gaps: pos_gaps(r), name: "position-bucket", from_r: None }, 4));
                 v.push((C05 { r, target: Target::Multi, kinds: vec![Kind::Tick, Kind::Burst, Kind::TickB, Kind::IncB, Kind::ChurnTick], gaps: vec![0, 1, interval_ns(r) - 1, interval_ns(r), 20 * interval_ns(r), 21 * interval_ns(r) + 1], name: "multi", from_r: None }, 4));
                 v.push((C05 { r, target: Target::Single, kinds: vec![Kind::Tick, Kind::Inc, Kind::Burst, Kind::Msg, Kind::SetPos, Kind::SetPosSame, Kind::ResizeTick, Kind::FinishReset], gaps: vec![0, 1_000_000, interval_ns(r) - 1, interval_ns(r) + 1_000_000, 21 * interval_ns(r) + 1], name: "mixed", from_r: None }, 4));
+            }
+            for (r, target) in [(2u8, Target::Single), (20, Target::Multi), (255, Target::Single), (1, Target::Multi)] {
+                v.push((C05 { r, target, kinds: vec![Kind::Tick, Kind::Burst, Kind::PrintlnBurstTick, Kind::Msg], gaps: vec![0, 2 * interval_ns(r), 5 * interval_ns(r) + 1, 21 * interval_ns(r) + 1], name: "forced", from_r: None }, 4));
             }
             for (f, r) in [(100u8, 2u8), (2, 100), (255, 1), (1, 255), (20, 21)] {
                 v.push((C05 { r, target: Target::Multi, kinds: vec![Kind::Tick, Kind::Burst, Kind::TickB, Kind::IncB, Kind::ChurnTick], gaps: vec![0, 1, interval_ns(r) - 1, interval_ns(r), 20 * interval_ns(r), 21 * interval_ns(r) + 1], name: "multi", from_r: Some(f) }, if f == 100 || r == 100 { 4 } else { 3 }));
